@@ -150,6 +150,46 @@ def h2_conic_mirror(ctx, kind):
     ctx.observe('e', e)
 
 
+@harness('C06', 'H2b_convex_hyperboloid', funcs=FUNCS, cases=lambda tier: [dict()],
+         bounds='convex hyperboloid mirror k = -4, R = +1 (lengths in units of R), real point source at the front geometric focus z = R/(1-e) = -1, '
+                'hit point on the sheet through the vertex with sag below the separation of the two sheets (chord slope symbolic), azimuth atan2(4, 3)',
+         doc='rays from the front focus of a convex hyperboloid mirror are reflected as if they came from the focus behind the mirror: the '
+             'reflected ray, extended backwards, passes through z = R/(1+e); the ray hits the sheet through the vertex (not the far sheet); '
+             'optical path to the mirror = focal distance')
+def h2b_convex_hyperboloid(ctx):
+    R, e = ctx.const(1.0), ctx.const(2.0)
+    k = -(e * e)
+    sl = ctx.real('s')
+    ctx.assume(sl * sl > e * e - 1)
+    rho, z = conic_point(ctx, R, k, sl)
+    P = (CPHI * rho, SPHI * rho, z)
+    f_back, f_front = R / (1 + e), R / (1 - e)
+    r_front = e * z - R / (1 - e)
+    r_back = e * z + R / (1 + e)
+    # the source lies inside the OTHER sheet of the quadric, which every ray crosses first (at |z| >= 2R/(e^2-1)); the library takes the
+    # intersection nearest to the vertex plane, i.e. the mirror sheet as long as the sag stays below the separation of the sheets
+    # (deeper hit points: known finding F24)
+    ctx.assume(z * (e * e - 1) < 2 * R)
+    s, img = two_surfaces(ctx, R, k, 1.0, 1.0, True, 0.0)
+    d = tuple((p - q) / r_front for p, q in zip(P, (0.0, 0.0, f_front)))
+    rays = launch(ctx, (0.0, 0.0, f_front), d)
+    s._trace_real(rays)
+    vals = [ctx.val(v) for v in (rays.x, rays.y, rays.z, rays.L, rays.M, rays.N, rays.opd)]
+    ok = all(ctx.finite(v) for v in vals)
+    ctx.oblige('ray_is_not_lost', ok)
+    if not ok:
+        return
+    x, y, zz, L, M, N, opd = vals
+    ctx.oblige('hits_the_surface_point_aimed_at', ctx.And(ctx.eq(x, P[0]), ctx.eq(y, P[1]), ctx.eq(zz, P[2])))
+    v = (P[0], P[1], P[2] - f_back)             # from the focus behind the mirror to the hit point
+    cr = (v[1] * N - v[2] * M, v[2] * L - v[0] * N, v[0] * M - v[1] * L)
+    ctx.oblige('reflected_ray_comes_from_the_back_focus', ctx.And(ctx.eq(cr[0], 0.0), ctx.eq(cr[1], 0.0), ctx.eq(cr[2], 0.0),
+                                                                  v[0] * L + v[1] * M + v[2] * N > 0))
+    ctx.oblige('optical_path_is_focal_distance', ctx.eq(opd, r_front))
+    ctx.oblige('oracle_difference_of_focal_distances', ctx.eq(r_front - r_back, 2 * R / (e * e - 1)))
+    ctx.observe('opd', opd)
+
+
 # ---------------------------------------------------------------------------------------------------- plano-hyperbolic singlet
 @harness('C06', 'H3_plano_hyperbolic', funcs=FUNCS, cases=lambda tier: [dict(late=False), dict(late=True)],
          bounds='exit face of a plano-hyperbolic singlet: R < 0, index n in [1.3, 4] symbolic, k = -n^2, glass -> air, axis-parallel ray inside '
